@@ -272,7 +272,16 @@ def oracle_inject(case: dict, r: Any) -> Optional[Tuple[str, str]]:
     if 'worker' in r:
         return ('worker', 'worker failed: %s' % json.dumps(r['worker'])[:300])
     objs = case['objs']
-    contract_broken = any(b['kind'] == 'pe_noapp' and not b.get('errs') for b in case['parsers'].values())
+    def contract_broken_for(key: str) -> bool:
+        # the stub raises ParseError although nothing is in the errs list: a stub that breaks the parser contract
+        # ("this error should already be stored in the errs list"), not a defect of pydoctor
+        beh = case['parsers'].get(objs[key]['doc'] or '')
+        if not beh or beh.get('errs'):
+            return False
+        if beh['kind'] == 'pe_noapp':
+            return True
+        return beh['kind'] == 'ok' and any(f['tag'] in TYPE_FIELDS and f['body']['to_node'] == 'ParseError'
+                                           for f in beh['pdoc'].get('fields', []))
     pe = {(s, w) for s, w in r['parse_errors']}
     total_reports: Dict[str, int] = {}
     seen_fd: Dict[str, int] = {}
@@ -298,6 +307,7 @@ def oracle_inject(case: dict, r: Any) -> Optional[Tuple[str, str]]:
                 if o['body'] != ['pre', own_doc]:
                     return ('fallback', 'parser gave up on %s but the body is %s, not the whole docstring as plain text'
                             % (key, o['body']))
+                contract_broken = contract_broken_for(key)
                 if not (g == 'pe' and contract_broken) and (0, key) not in pe:
                     return ('unreported', 'parser gave up on %s but it is not in parse_errors[docstring]' % key)
                 if not (g == 'pe' and contract_broken) and not total_reports.get(key):
@@ -618,6 +628,8 @@ class Check(PropertyCheck):
         'C08_reported_parse_error_refuted shows it is needed)',
         'to_node raises nothing but NotImplementedError inside get_toc (C08_toc_total_refuted shows it is needed)',
         'the object renders its own docstring (not a split @ivar field of its parent) for C08_isolation_partial (C08_isolation_split_field_refuted)',
+        'oracles are deterministic; ParsedEpytextDocstring.to_node is not when its conversion raises (C08_epytext_to_node_refuted): '
+        'that case is outside the fallback theorems and is a known finding',
     ]
     manifest = {
         'text': ('Theorems over Model/DocFlow.v (control flow of parse_docstring, reportErrors, ensure_parsed_docstring, safe_to_stan, '
@@ -632,8 +644,11 @@ class Check(PropertyCheck):
                  'contract escapes the barrier functions (C08_barrier_total). Tie: exhaustive fault injection into the real functions '
                  'with stub parsers, model/implementation diff per call, plus fuzzing of the real parsers under a wall-clock limit.'),
         'note': ('Partial: termination / exception-freedom inside the real parsers and docutils is only sampled. Known on the unchanged '
-                 'tree: format_toc lets any exception of to_node other than NotImplementedError escape; a split-field attribute whose '
-                 'summary fails to render overwrites its parent\'s cached summary. Trusted: Coq kernel, gen_skeleton.py + allowed_table, '
+                 'tree (KNOWN-FINDING lines, _refuted theorems): ParsedEpytextDocstring.to_node caches an empty document before a '
+                 'failing conversion, so a real epytext docstring with an indented field followed by a field at the margin is rendered '
+                 'as NOTHING and nothing is reported when the summary was requested first; format_toc lets any exception of to_node '
+                 'other than NotImplementedError escape (same docstring, toc requested first); a split-field attribute whose summary '
+                 'fails to render overwrites its parent\'s cached summary. Trusted: Coq kernel, gen_skeleton.py + allowed_table, '
                  'extraction, harness.'),
         'technique': 'Coq proof (state-machine model over oracles, non-interference by two-run simulation) + regenerated exception skeletons + exhaustive fault injection + fuzzing',
     }
@@ -838,6 +853,22 @@ class Check(PropertyCheck):
 
     def run_real(self, cases: List[dict], out: List[Violation]) -> None:
         impl = lib.run_impl_worker(WORKER, cases, jobs=16, timeout=3400)
+        # a call that did not finish within the limit is confirmed alone, with a three times longer limit, before it is
+        # called a hang (the machine is shared)
+        hung = [i for i, r in enumerate(impl) if r.get('hang')][:8]
+        if hung:
+            old = os.environ.get('C08_CALL_LIMIT')
+            os.environ['C08_CALL_LIMIT'] = '90'
+            try:
+                for i in hung:
+                    r2 = lib.run_impl_worker(WORKER, [cases[i]], timeout=400)[0]
+                    self.count('real_slow_call_confirmed_hang' if r2.get('hang') else 'real_slow_call_finished_alone')
+                    impl[i] = r2
+            finally:
+                if old is None:
+                    del os.environ['C08_CALL_LIMIT']
+                else:
+                    os.environ['C08_CALL_LIMIT'] = old
         for c, r in zip(cases, impl):
             self.count('real_%s' % c.get('stream'))
             self.count('real_fmt_%s' % c['fmt'])
@@ -965,14 +996,15 @@ class Check(PropertyCheck):
         obs = v.observed if isinstance(v.observed, dict) else {}
         for k in known:
             m = k.get('match', {})
-            if not v.what.startswith('[%s]' % m.get('oracle_class')):
+            classes = m.get('oracle_classes') or [m.get('oracle_class')]
+            if not any(v.what.startswith('[%s]' % cl) for cl in classes):
                 continue
             if m.get('stream') != c.get('k'):
                 continue
             if m['stream'] == 'inject':
-                if m['oracle_class'] == 'toc_raises' and toc_raise_explained(c):
+                if m.get('oracle_class') == 'toc_raises' and toc_raise_explained(c):
                     return k
-                if m['oracle_class'] == 'isolation_split' and c.get('kind') == 'split':
+                if m.get('oracle_class') == 'isolation_split' and c.get('kind') == 'split':
                     return k
             elif m['stream'] == 'epynode':
                 return k
